@@ -24,6 +24,21 @@ check('C05', 'call-graph reachability (no allocation request reachable from any 
       'Does not decide capacity()==N as a run-time relation; see DESIGN.md C05.',
       'DESIGN.md section 4, C05')
 
+check('C07', 'call-graph exclusion (capacity-changing callees reachable only through grow) + control-dependence of every grow call on a capacity comparison + abstract interpretation of the growth function',
+      'Decides in full, for the analysed matrix, the clauses "capacity never decreases except through shrink_to_fit/move/swap", "an operation whose result fits does not reallocate" and "after reserve(n) capacity()>=n"; structural only for size()<=capacity().',
+      'Partial: run-time inequalities and preserved element addresses over histories are not decided; see DESIGN.md C07.',
+      'DESIGN.md section 4, C07')
+
+check('C08', 'rule instances over the instantiated program: throw-type/condition table, computation-type (integral promotion) check of every capacity request, growth-function interpretation',
+      'Decides the error-type clauses and "no size computation wraps around" per size_type archetype; check-before-mutation and leak clauses come from the typestate rules listed in the evidence.',
+      'Partial: "contents exactly as before" is a value statement; its structural form (check dominates every mutation) is what is decided.',
+      'DESIGN.md section 4, C08')
+
+check('C18', 'abstract interpretation (affine lower bounds with clamp) of the growth function + loop/once-per-path rule for capacity adjustments',
+      'The reallocation bound follows for every n from two static facts: growth factor a with a*a>=2 (derived: 3/2) and at most one grow with one allocator request per appended element; decided for every size_type archetype.',
+      'Trusted: constant folding of numeric_limits; arithmetic from the factor to 2*ceil(log2 n)+4 is in the evidence explanation.',
+      'DESIGN.md section 4, C18')
+
 PENDING = ['C01','C02','C03','C04','C05','C06','C07','C08','C09','C10','C11','C13','C14','C15','C16','C18','C19','C20']
 for p in PENDING:
     if p not in CHECKS:
